@@ -5,6 +5,7 @@ import (
 	"fmt"
 	"math/rand"
 	"os"
+	"os/exec"
 	"path/filepath"
 	"sort"
 	"strings"
@@ -322,13 +323,69 @@ func runC05(c *fw.Ctx) {
 	}
 }
 
+// c05Fuzz (driver side): coverage-guided extension. Go's native fuzzer mutates the repository's lisp sources and
+// reader edge cases through the same entry points; a panic or a 20 s stall fails the target and is a violation.
+func c05Fuzz(m *fw.Merged) {
+	execs := "60000x"
+	if m.Tier == "thorough" {
+		execs = "4000000x"
+	}
+	vd := os.Getenv("VERIF_DIR")
+	if vd == "" {
+		vd = "/verif"
+	}
+	dir := filepath.Join(vd, "harness")
+	crashDir := filepath.Join(dir, "fuzz", "testdata", "fuzz", "FuzzRead")
+	os.RemoveAll(crashDir)
+	args := []string{"test", "-tags", "verif", "-run", "^$", "-fuzz", "FuzzRead", "-fuzztime", execs}
+	if alt := os.Getenv("VERIF_REPO_DIR"); alt != "" {
+		if mods, _ := filepath.Glob(filepath.Join(vd, ".work", "alt-*.mod")); len(mods) > 0 {
+			args = append(args, "-modfile="+mods[0])
+		}
+	}
+	args = append(args, "./fuzz")
+	cmd := exec.Command("go", args...)
+	cmd.Dir = dir
+	cmd.Env = append(os.Environ(), "GOFLAGS=-mod=mod", "GOPROXY=off", "GOSUMDB=off", "GOTOOLCHAIN=local")
+	out, err := cmd.CombinedOutput()
+	text := string(out)
+	var lastExecs, interesting int64
+	for _, l := range strings.Split(text, "\n") {
+		var el, ex, rate, ni, tot int64
+		if n, _ := fmt.Sscanf(l, "fuzz: elapsed: %ds, execs: %d (%d/sec), new interesting: %d (total: %d)", &el, &ex, &rate, &ni, &tot); n == 5 {
+			lastExecs, interesting = ex, tot
+		}
+	}
+	m.Extra["coverage_guided_fuzz"] = map[string]any{"target": "FuzzRead", "budget": execs, "executions": lastExecs, "interesting_inputs_in_corpus": interesting}
+	m.Counts["fuzz_executions"] = lastExecs
+	if err != nil {
+		input := "(see detail)"
+		if files, _ := filepath.Glob(filepath.Join(crashDir, "*")); len(files) > 0 {
+			if b, e := os.ReadFile(files[0]); e == nil {
+				input = string(b)
+			}
+		}
+		key := "fuzz:failure"
+		if i := strings.Index(text, "panic: "); i >= 0 {
+			key = "fuzz:panic@" + fw.PanicSite(text[i:])
+		}
+		if len(text) > 6000 {
+			text = text[len(text)-6000:]
+		}
+		m.Violations = append(m.Violations, fw.Violation{Key: key, CaseID: "fuzz", What: "the coverage-guided fuzz target FuzzRead failed (panic or stall in a reader entry point)", Input: input, Detail: text})
+		m.Counts["violations_by_key."+key]++
+	}
+	os.RemoveAll(filepath.Join(dir, "fuzz", "testdata"))
+}
+
 func init() {
 	fw.Register(&fw.Property{
 		ID:     "C05",
 		Run:    runC05,
-		Rule:   "inputs = every token sequence up to the tier's length over a 26-token alphabet (space-joined and unseparated), every truncation of a window of every .lisp/.mal file under /repo plus hostile single-rune substitutions, seeded random byte/Unicode/nested texts and preamble shapes; each input goes through 9 reader entry points (READ ±cursor ±environment, READWithPreamble, Read_str with empty/filled placeholder map, read-string via EVAL) and PRINT on success, each under recover() and a 20 s/60 s watchdog; distinct = distinct input texts shorter than 40 bytes",
+		Rule:   "inputs = every token sequence up to the tier's length over a 26-token alphabet (space-joined and unseparated), every truncation of a window of every .lisp/.mal file under /repo plus hostile single-rune substitutions, seeded random byte/Unicode/nested texts and preamble shapes; each input goes through 9 reader entry points (READ ±cursor ±environment, READWithPreamble, Read_str with empty/filled placeholder map, read-string via EVAL) and PRINT on success, each under recover() and a 20 s/60 s watchdog; distinct = distinct input texts shorter than 40 bytes; in addition Go's coverage-guided fuzzer (FuzzRead, count-based budget) mutates the repository's sources through 7 entry points",
 		Assume: []string{"inputs are at most a few KiB and nested at most 200 deep (host-stack exhaustion on megabytes of '(' is excluded)", "a hang is declared only after 60 s on a re-run; slower-than-20 s cases are counted, not judged"},
 		Finish: func(m *fw.Merged) {
+			c05Fuzz(m)
 			m.Floor("api_calls", 100000)
 			m.Floor("printed", 1000)
 			m.Extra["accepted_per_api"] = m.CountsWithPrefix("accepted.")
